@@ -13,6 +13,19 @@ COMMON_NOTE = ("Trusted: Lean 4.33.0 kernel; axioms per theorem as printed by #p
 
 # property id -> dict(level, text, technique, note, design_ref)
 CLAIMED = {
+    "C19": dict(
+        level="proof",
+        text="PARTIAL. Lean theorems cover the data-carrying part of the printer/parser pair: lex_unit / string_print_lex (for EVERY string value - "
+             "quotes, backslashes, line terminators, control characters, U+2028/9, lone surrogates anywhere - lexing the literal the printer "
+             "writes gives the value back and stops after the closing quote), escUnit_one_line (the printed literal never contains a raw line "
+             "terminator or control character). The model of push_escaped is tied to the printer by correspondence on generated string values. "
+             "The structural part of the property is explored on the engine itself, not proved: for a construct corpus, generated programs, "
+             "token-level mutations and noise texts - the parser returns (no panic), an error position lies inside the text, the printed "
+             "program parses again, parse-print is a fixpoint from the first printed form on (equal text and equal AST), the printed program "
+             "evaluates to the same trace, and parsing interns only substrings of the text (hook).",
+        technique="Lean 4 round-trip proof for printed string literals + correspondence with the printer; engine-level exploration (parse/print/re-parse fixpoint, trace equality, error positions, interner contents) for the structural part",
+        note="The grammar itself is not modelled: precedence/parentheses, statements, templates, regular expressions and numeric literals are only explored; parser termination is observed, not proved.",
+    ),
     "C16": dict(
         level="proof",
         text="Lean state-machine model of ECMA-262 promise jobs: promise records with reaction lists, the resolving functions' alreadyResolved "
@@ -186,7 +199,7 @@ CLAIMED = {
 
 ALL = ["C%02d" % i for i in range(1, 21)]
 NOT_YET = "not claimed yet: model, correspondence and first theorem for this property are not built (see DESIGN.md §7 build order)"
-HOOK_COMMITS = ["ee8c1f4", "5c06b44", "e155a04", "1e55d63", "9e69b21", "f5f85fd"]
+HOOK_COMMITS = ["ee8c1f4", "5c06b44", "e155a04", "1e55d63", "9e69b21", "f5f85fd", "f641ffa", "a4032f3"]
 
 
 def manifest():
